@@ -394,6 +394,10 @@ pub fn replay(lines: &[String], out: &mut Out) {
             }
             "bcrun" => out.case(line, &exec_bcrun(&t)),
             "jitrun" | "jitsem" | "x86prog" => out.case(line, &exec_jitrun(&t)),
+            "optrun" if t.len() >= 4 => {
+                let (orders, imp) = exec_optrun(&t);
+                out.case(&format!("optrun {} {} {} {}", t[1], t[2], t[3], orders), &imp)
+            }
             "limchk" => {
                 out.mark(line);
                 let r = exec_limchk(&t);
@@ -2013,4 +2017,68 @@ pub fn x86prog(r: &mut Rng, count: usize, out: &mut Out) {
         let w = *r.pick(&WIDTHS);
         with_width!(w, x86prog_case, w, &code, &env, r, out);
     }
+}
+
+// ---------------------------------------------------------------------------------------- optrun
+
+fn optrun_exec<C: CellType>(t: &[&str]) -> (String, String) {
+    let lvl: u32 = t[2].parse().unwrap();
+    let code = String::from_utf8(crate::util::unhex(t[3]).unwrap()).unwrap();
+    match ir::Program::<C>::parse(&code) {
+        Ok(p) => {
+            let _ = hpbf::verif::trace_take();
+            let res = std::panic::catch_unwind(std::panic::AssertUnwindSafe(move || p.optimize(lvl)));
+            // the iteration orders of hash sets that the optimizer used (the model takes them as an oracle)
+            let orders: Vec<String> = hpbf::verif::trace_take()
+                .into_iter()
+                .filter_map(|e| {
+                    let t: Vec<&str> = e.split(' ').collect();
+                    if t[0] == "order" { Some(format!("{}:{}", t[1], t.get(2).unwrap_or(&""))) } else { None }
+                })
+                .collect();
+            let orders = if orders.is_empty() { "-".to_string() } else { orders.join(";") };
+            match res {
+                Ok(o) => (orders, encode_block(&o)),
+                Err(_) => (orders, "panic".to_string()),
+            }
+        }
+        Err(_) => ("-".to_string(), "parse-error".to_string()),
+    }
+}
+
+/// `optrun <w> <level> <source hex> [<orders>]`: the IR after `Program::parse(source).optimize(level)`;
+/// `<orders>` = `var:n1,n2;var:n1,…` are the hash-set iteration orders the run used, in sequence.
+pub fn exec_optrun(t: &[&str]) -> (String, String) {
+    match t[1] {
+        "8" => optrun_exec::<u8>(t),
+        "16" => optrun_exec::<u16>(t),
+        "32" => optrun_exec::<u32>(t),
+        "64" => optrun_exec::<u64>(t),
+        _ => ("-".to_string(), "bad-request".to_string()),
+    }
+}
+
+/// The optimizer as a function: source -> optimized IR, compared structurally with a Lean port.
+pub fn optrun(r: &mut Rng, count: usize, out: &mut Out) {
+    let prev = std::panic::take_hook();
+    std::panic::set_hook(Box::new(|_| {}));
+    for i in 0..count {
+        let code = match i % 4 {
+            0 => gen::structured(r),
+            1 => gen::token(r),
+            _ => random_program(r, out),
+        };
+        let w = *r.pick(&WIDTHS);
+        for lvl in [1u32, 2, 3] {
+            let req = format!("optrun {w} {lvl} {}", hex(code.as_bytes()));
+            out.mark(&req);
+            let t: Vec<&str> = req.split_whitespace().collect();
+            let (orders, imp) = exec_optrun(&t);
+            if orders != "-" {
+                out.stat("with_orders");
+            }
+            out.case(&format!("{req} {orders}"), &imp);
+        }
+    }
+    std::panic::set_hook(prev);
 }
